@@ -1,0 +1,46 @@
+package generator
+
+import (
+	"fmt"
+	"strings"
+)
+
+// regoStringContent escapes text taken from a profile so that it can be pasted between double quotes
+// in the generated Rego and denotes exactly that text: backslash, double quote and control characters
+// are written as escape sequences, everything else is copied.
+func regoStringContent(s string) string {
+	var b strings.Builder
+	for _, r := range s {
+		switch {
+		case r == '\\':
+			b.WriteString(`\\`)
+		case r == '"':
+			b.WriteString(`\"`)
+		case r == '\n':
+			b.WriteString(`\n`)
+		case r == '\r':
+			b.WriteString(`\r`)
+		case r == '\t':
+			b.WriteString(`\t`)
+		case r < 0x20 || r == 0x7f:
+			b.WriteString(fmt.Sprintf(`\u%04x`, r))
+		default:
+			b.WriteRune(r)
+		}
+	}
+	return b.String()
+}
+
+// regoStringList renders profile values as the comma-separated quoted elements of a Rego set or array.
+func regoStringList(values []string) string {
+	quoted := make([]string, len(values))
+	for i, v := range values {
+		quoted[i] = "\"" + regoStringContent(v) + "\""
+	}
+	return strings.Join(quoted, ",")
+}
+
+// jsonStringList renders profile values as the text of a JSON array of strings (for trace values).
+func jsonStringList(values []string) string {
+	return "[" + regoStringList(values) + "]"
+}
